@@ -147,8 +147,10 @@ Commit == /\ Ev.e = "Commit"
              /\ b \in DOMAIN B /\ b \notin seen[n]
              /\ B[b].parent \in seen[n]
              /\ Accepts(fin[n], b)
+             \* own block: the flow was scheduled on the node's best at that time, which may have moved since
+             \* (packerLoop re-checks once per second): the parent is any stored block; the COM bit follows the
+             \* vote rule for THAT parent, and the block becomes best only if the fork choice says so
              /\ (Ev.own => /\ B[b].signer = Val(n)
-                           /\ B[b].parent = best[n]                        \* packs on its own best
                            /\ B[b].com = ShouldVoteWith(fin[n], cs, B[b].parent))
              /\ seen' = [seen EXCEPT ![n] = @ \cup {b}]
              /\ best' = [best EXCEPT ![n] = IF Better(b, @) THEN b ELSE @]
